@@ -516,10 +516,13 @@ class Fn:
         out = set()
         rest = set()
         if vname in ('Some', 'Ok', 'Continue') and k == 0:
-            hit = False
             for n in base:
-                if n[0] == 'agg' and n[2] == vname and n[3]:
+                if n[0] == 'agg' and n[2] in ('Some', 'Ok', 'Continue') and n[3]:
                     out |= n[3][0][1]
+                elif n[0] == 'agg' and n[2] in ('None', 'Err', 'Break'):
+                    continue            # a residual literal carries no payload: this definition cannot reach here
+                elif n[0] == 'call' and n[1] == 'std::ops::FromResidual::from_residual':
+                    continue
                 else:
                     rest.add(n)
             if rest:
@@ -675,6 +678,20 @@ class Fn:
         if 'const' in op or depth > 12:
             return [(point[0], point[1], self.op_terms(op, point))]
         pl = op.get('move') or op.get('copy')
+        if pl is not None and len(pl['p']) == 1 and isinstance(pl['p'][0], dict) and 'f' in pl['p'][0]:
+            # `x.k` where x has a single whole definition that is a copy or a tuple literal: follow component k
+            # (the destructuring of a helper's tuple result, also after inlining)
+            evs, entry = self.reaching(pl['l'], point, (), True, whole_only=True)
+            if len(evs) == 1 and not entry:
+                e = evs[0]
+                if e.kind == 'assign' and e.data['k'] == 'assign' and not e.path:
+                    rv = e.data['rv']
+                    if rv['k'] == 'use':
+                        src = rv['op'].get('move') or rv['op'].get('copy')
+                        if src is not None and not src['p']:
+                            return self.split_defs({'copy': {'l': src['l'], 'p': list(pl['p'])}}, (e.block, e.idx), depth + 1)
+                    elif rv['k'] == 'agg' and rv.get('agg') == 'tuple' and pl['p'][0]['f'] < len(rv['fields']):
+                        return self.split_defs(rv['fields'][pl['p'][0]['f']], (e.block, e.idx), depth + 1)
         if pl is None or pl['p']:
             return [(point[0], point[1], self.op_terms(op, point))]
         evs, entry = self.reaching(pl['l'], point, (), True, whole_only=True)
